@@ -305,6 +305,20 @@ func init() {
 				},
 			})
 		}
+		// a policy updated to an explicit zero on one side: zero is "not configured"
+		out = append(out, &hist.Scenario{
+			ID: "C04/explicit-zero-backoff", Prop: "C04", Depth: d(tier, 5, 6), Drain: true,
+			Cfg: model.Cfg{Topics: []string{"T0"}, Subs: []model.SubCfg{
+				{Name: "S0", Topic: "T0", MinBackoff: 2 * time.Second, MaxBackoff: 60 * time.Second, Retention: 100 * 24 * time.Hour},
+			}},
+			Prelude: []model.Op{pubN("T0", "", "")},
+			Alphabet: []model.Op{
+				pull("S0", 1), pull("S0", 10), nack("S0", "oldest"), modack("S0", "oldest", 0),
+				tick("lease-"), tick("lease+"),
+				reconfig("S0", "retry:5s-max0"), reconfig("S0", "retry:min0-max40s"),
+				pullW("S0", 10),
+			},
+		})
 		// the lease bookkeeping must land on the message that was handed out even when
 		// an earlier candidate of the same batch is passed over (retired into the
 		// dead-letter topic by this very pull)
